@@ -54,6 +54,9 @@ def gen_cases(rng, tier):
         inv = chains[(3 * i + 1) % len(chains)]
         cases.append({'k': 'repcode', 'desc': {'src': 'layout', 'name': 'Repetition9Round6Code', 'involved': inv, 'refocus': True},
                       'init': [rng.randint(0, 1) for _ in range((len(inv) + 1) // 2)], 'cycles': 2, 'env': env})
+    # a multi-round experiment whose bulk block (cycles - 3 >= 2 repetitions) is unrolled, flattened and then copied into the experiment,
+    # on a chain whose first gate layer activates two ancillas (the copy of a group relation must keep every member)
+    cases.append({'k': 'multi', 'desc': {'src': 'chain', 'length': 5, 'refocus': True}, 'init': [0, 1, 0], 'rounds': [5], 'env': _env_corners(rng)[0]})
     # random part
     n = {'repcode': 12, 'simplified': 9, 'multi': 4, 'calib': 3} if quick else {'repcode': 220, 'simplified': 140, 'multi': 40, 'calib': 40}
     for kind, cnt in n.items():
